@@ -56,19 +56,21 @@ def filterDelineate (inp : Bytes) : Outcome Bytes :=
     | .err => .err
     | .panic => .panic
 
-/-- `FilterIdIter`/`FilterAuthorIter`: `n` 32-byte items from `off`; an item that would run past
-the end makes the iterator yield `None`, which ends every consumer's loop -/
-def readItems32 (b : Bytes) : Nat → Nat → List Bytes
+/-- `FilterIdIter`/`FilterAuthorIter` on the suffix that starts at the first item: up to `n`
+32-byte items; an item that would run past the end makes the iterator yield `None`, which ends
+every consumer's loop -/
+def readItems32 : Nat → Bytes → List Bytes
   | 0, _ => []
-  | n + 1, off =>
-    if b.length < off + 32 then []
-    else (b.drop off).take 32 :: readItems32 b n (off + 32)
+  | n + 1, s =>
+    if (s.take 32).length < 32 then []
+    else s.take 32 :: readItems32 n (s.drop 32)
 
-def readKinds (b : Bytes) : Nat → Nat → List Nat
+def readKinds : Nat → Bytes → List Nat
   | 0, _ => []
-  | n + 1, off =>
-    if b.length < off + 2 then []
-    else leVal ((b.drop off).take 2) :: readKinds b n (off + 2)
+  | n + 1, s =>
+    match s with
+    | a :: b :: rest => (a + 256 * (b + 256 * 0)) :: readKinds n rest
+    | _ => []
 
 /-- all accessors of `Filter` -/
 def filterDecode (b : Bytes) : Outcome FilterRec :=
@@ -80,8 +82,8 @@ def filterDecode (b : Bytes) : Outcome FilterRec :=
       | .ok tb =>
         match tagsDecode tb with
         | .ok tags =>
-          .ok ⟨readItems32 b ni 32, readItems32 b na (32 + ni * 32),
-               readKinds b nk (32 + ni * 32 + na * 32), tags, since, «until», limit⟩
+          .ok ⟨readItems32 ni (b.drop 32), readItems32 na (b.drop (32 + ni * 32)),
+               readKinds nk (b.drop (32 + ni * 32 + na * 32)), tags, since, «until», limit⟩
         | .err => .err
         | .panic => .panic
       | .err => .err
